@@ -16,7 +16,7 @@
    object's mailbox at a time (the harness waits for the mailbox goroutine to
    park), and a queue never overflows.
 
-   "G" lines: [steps, got, bad]
+   "G" lines: [steps, got, bad, fin]  (fin = 1: every thread is done, nothing in flight)
      steps = <<[a, th], ...>> every step, automatic ones included (the harness
              uses them as synchronisation points: "forward" = the subscriber has
              read one more event, "close" = its channel got closed ...)
@@ -85,9 +85,10 @@ Finished == /\ \A t \in Threads : pc[t] \in {"done", "failed"} /\ (pc[t] = "done
 GInit == Init /\ hist = <<>> /\ bad = {}
 GNext == /\ IF AutoEnabled THEN AutoStep ELSE Controllable
          /\ bad' = bad \cup Violated'
-         /\ (Hunt = "" /\ Finished') => PrintT(<<"G", ToJson([steps |-> hist', got |-> got', bad |-> bad'])>>)
+         /\ (Hunt = "" /\ Finished')
+               => PrintT(<<"G", ToJson([steps |-> hist', got |-> got', bad |-> bad', fin |-> 1])>>)
          /\ (Hunt # "" /\ Hunt \in bad' /\ Hunt \notin bad)
-               => PrintT(<<"G", ToJson([steps |-> hist', got |-> got', bad |-> bad'])>>)
+               => PrintT(<<"G", ToJson([steps |-> hist', got |-> got', bad |-> bad', fin |-> 0])>>)
 GSpec == GInit /\ [][GNext]_gvars
 HuntOpen == Hunt = "" \/ Hunt \notin bad
 \* the schedule so far is history, not state
